@@ -37,10 +37,25 @@ def g(x):
     a = x + 1
     return a
 
+class PlainIt:
+    def __init__(self):
+        self.n = 0
+    def __iter__(self):
+        return self
+    def __next__(self):
+        self.n += 1
+        if self.n > 2:
+            raise StopIteration
+        return 1000 * self.n
+    def send(self, value):
+        return self.__next__()
+
 def gen(n):
     for i in range(n):
         y = g(i)
         got = yield y
+    # delegation to a plain iterator (it has neither throw() nor close())
+    yield from PlainIt()
 
 def sub(n):
     for k in range(n):
